@@ -525,7 +525,16 @@ func c07TM(c *core.Ctx, pkg *packages.Package) {
 			return true
 		})
 		c.Check(wait != token.NoPos && del != token.NoPos && wait < del, "C07.tm", "TaskMaster.Drain#wait-first", fn.Decl.Pos(), "Drain must wait for the fork goroutines to hand over what was written (waitForForks) before it closes the task edges")
-		c09LoopNoExit(c, "C07.tm", "TaskMaster.Drain#all-forks", fn, info, ".taskToForkKeys", "delFork", nil)
+		// F125: the loop runs over the map that has an entry for every fork (the by-task edge map), or — before that map
+		// existed — over the tasks' key lists; c07ForkEdge decides whether every fork is reachable from its task id at all
+		over := ".taskToForkKeys"
+		ast.Inspect(fn.Decl.Body, func(n ast.Node) bool {
+			if rs, ok := n.(*ast.RangeStmt); ok && an.FieldSel(info, rs.X, "TaskMaster", "forkEdges") {
+				over = ".forkEdges"
+			}
+			return true
+		})
+		c09LoopNoExit(c, "C07.tm", "TaskMaster.Drain#all-forks", fn, info, over, "delFork", nil)
 	}
 	if fn := c.Need("C07.tm", "", "TaskMaster", "DeleteTask"); fn != nil {
 		var stop, hooks token.Pos
